@@ -17,6 +17,15 @@ Monitors
 * meta: a method's selector has the method's name; every binary special
   method has its reflected form; no operator method is hidden by an instance
   attribute of a subclass.
+* effects (vf/c15_effects.py): operand functions and operand streams WITH
+  state, side effects and failures (TypeError and other exception types raised
+  inside the operand's body, for some inputs or at some point of its life),
+  lifted with every operator, called / pulled repeatedly with continued use
+  after a failure.  A trace checker over the operand bodies' own logs: every
+  body runs once per occurrence and per call (never twice, never after another
+  operand failed), receives the arguments of the direct call (spare positional
+  / keyword arguments discarded), its exception comes out of the lifted call
+  unchanged, the value returned is the operator applied to the logged values.
 Kernel bugs cancel in the lifting law (same kernel on both sides) and are the
 law monitors' business.
 """
@@ -33,7 +42,13 @@ RULE = ("operator entry points enumerated by introspection (all operator methods
         "either side with random small int/float values; law samples draw "
         "in-domain int/float arguments incl. boundaries and mixed types; a lifting "
         "case is non-trivial when the evaluation is a value (not an exception); "
-        "a law case always is; distinct = hash of entry point, kinds and values")
+        "a law case always is; distinct = hash of entry point, kinds and values; "
+        "effects cases: random expression (depth <= 2) of one operator entry over "
+        "logging operand functions (signatures (), (x), (x, y), (x, gain=2); scripted "
+        "per run or computed from the arguments; 15 ways of failing) or logging "
+        "operand streams (FunctionStream, Pfunc, Pfuncn, Routine, Prout), 5-12 calls "
+        "/ pulls with random call shapes; non-trivial when a value is returned "
+        "after an operand failure in the same history")
 ASSUMPTIONS = [
     "the numeric meaning of an operator method is the selector it hands to the "
     "composition hook (found with a probe object), applied to plain numbers; "
@@ -66,9 +81,33 @@ ASSUMPTIONS = [
     "part of the property)",
     "stream histories: PausedStream and StopStream count as the same outcome "
     "of a pull; reset() of a composed stream restarts all its operands",
+    "effects monitor: the order in which the operands of ONE lifted call are "
+    "evaluated is not judged (stateful operands occur once per expression, "
+    "operands occurring twice are pure in the call arguments); Function's "
+    "calling convention 'spare positional and unknown keyword arguments are "
+    "discarded' is taken from the library (functions.py doc string of value(), "
+    "Function.__call__); only calls that bind for every operand are generated; "
+    "functions with *args / **kwargs are not generated; routine based operand "
+    "streams count as ended after their body raised; a pattern embedded in "
+    "Pseq is not pulled again after an exception (the embedding routine is "
+    "over); the operand bodies' own logs are trusted",
     "law tolerances: 4 ulp of the largest argument for range laws, 1e-12 "
     "relative for multiples, 1e-9 relative for inverse pairs (vf/c15_laws.py); "
     "the exact laws compare exactly on dyadic arguments"]
+FX_MIN = {'fx_function_calls_judged': 20000,
+          'fx_function_calls_with_operand_failure': 4000,
+          'fx_function_calls_after_a_failure': 8000,
+          'fx_function_histories_value_after_failure': 1500,
+          'fx_operand_failure_TypeError': 1500,
+          'fx_operand_failure_other_types': 3000,
+          'fx_expressions_with_an_operand_used_twice': 150,
+          'fx_expressions_nested': 500,
+          'fx_function_call_pos-spare': 2000, 'fx_function_call_kw-spare': 1000,
+          'fx_stream_pulls_judged': 8000,
+          'fx_stream_pulls_with_operand_failure': 1500,
+          'fx_stream_pulls_after_a_failure': 800,
+          'fx_stream_histories_value_after_failure': 200,
+          'fx_operand_bodies_run': 30000}
 MIN_COUNTERS = {
     'quick': {'lift_method_evaluations': 5000, 'lift_builtin_evaluations': 5000,
               'lift_value_agreements': 6000, 'law_samples': 20000,
@@ -82,7 +121,7 @@ MIN_COUNTERS = {
               'stream_histories_poll_paused_then_continue': 500,
               'stream_histories_exhaust_then_reset_operand': 300,
               'max_method_entry_points': 100, 'max_builtin_entry_points': 100,
-              'meta_checks': 100},
+              'meta_checks': 100, **{k: v for k, v in FX_MIN.items()}},
     'thorough': {'lift_method_evaluations': 600000,
                  'lift_builtin_evaluations': 600000,
                  'lift_value_agreements': 800000, 'law_samples': 3000000,
@@ -96,7 +135,7 @@ MIN_COUNTERS = {
                  'stream_histories_poll_paused_then_continue': 20000,
                  'stream_histories_exhaust_then_reset_operand': 10000,
                  'max_method_entry_points': 100, 'max_builtin_entry_points': 100,
-                 'meta_checks': 100},
+                 'meta_checks': 100, **{k: 20 * v for k, v in FX_MIN.items()}},
 }
 
 
@@ -119,6 +158,10 @@ def plan(tier, seed):
                        'hard_timeout': secs + 150})
     for p, (f, n) in enumerate(split(6000 if q else 300_000, 2)):
         shards.append({'name': f'reent{p}', 'mode': 'nrt', 'kind': 'reent',
+                       'first_case': f, 'n': n, 'secs': secs,
+                       'hard_timeout': secs + 150})
+    for p, (f, n) in enumerate(split(9000 if q else 1_500_000, 2)):
+        shards.append({'name': f'fx{p}', 'mode': 'nrt', 'kind': 'fx',
                        'first_case': f, 'n': n, 'secs': secs,
                        'hard_timeout': secs + 150})
     shards.append({'name': 'meta', 'mode': 'nrt', 'kind': 'meta', 'first_case': 0,
@@ -1267,5 +1310,9 @@ def run_shard(spec, acc):
         run_hist(spec, acc)
     elif kind == 'reent':
         run_reent(spec, acc)
+    elif kind == 'fx':
+        from vf import c15_effects as fx
+        fx.run(spec, acc, _op_entries(), _apply_entry, _selector_call,
+               time_limit, Timeout, iter_cases, case_rng, h64)
     else:
         run_meta(spec, acc)
